@@ -556,6 +556,9 @@ func BatchFunc[T any](
 				if len(batch) > 0 {
 					// Time already elapsed, just deliver the batch now.
 					if time.Since(batchStart) > maxWait {
+						// A timer armed for an earlier waiter may have fired already; left
+						// alone, its tick would flush the next, empty batch.
+						stopTimer()
 						if !flush() {
 							return
 						}
